@@ -7,6 +7,7 @@ import (
 	"net/netip"
 	"runtime"
 	"sync"
+	"time"
 
 	"github.com/uhppoted/uhppote-core/types"
 	"github.com/uhppoted/uhppote-core/uhppote"
@@ -218,11 +219,21 @@ func timeProfileCall(g *G, fromZero, toZero bool, missing, s, e int) callSpec {
 	serial := g.serial()
 	from, pf := g.date(false)
 	to, pt := g.date(false)
+	zero := func() types.Date {
+		// the zero 'no date' in its different guises (same instant, another Location)
+		switch g.r.Intn(3) {
+		case 0:
+			return types.Date(time.Time{}.UTC())
+		case 1:
+			return types.Date(time.Time{}.In(locs[g.r.Intn(len(locs))]))
+		}
+		return types.Date{}
+	}
 	if fromZero {
-		from, pf = types.Date{}, M{"t": "zero"}
+		from, pf = zero(), M{"t": "zero"}
 	}
 	if toZero {
-		to, pt = types.Date{}, M{"t": "zero"}
+		to, pt = zero(), M{"t": "zero"}
 	}
 	segs := types.Segments{}
 	ps := []any{}
